@@ -1,7 +1,8 @@
 (* Faithfulness of the value-type conversions of /repo/src/ir/types.rs, proved over the *generated* tables
    (Gen/GenDataTypeConv.v):  wasmparser::ValType --of_val--> DataType --to_val_enc--> wasm_encoder::ValType is the
-   identity exactly outside the known class D10; the wasmparser direction (to_val_wp, used by the add_global API
-   and BlockType) additionally turns the non-nullable (ref func) / (ref extern) into the nullable funcref / externref. *)
+   identity exactly outside the known class D10; so is the wasmparser direction (to_val_wp, used by the add_global API
+   and BlockType) since the repair of D10d / D30: it used to turn the non-nullable (ref func) / (ref extern) into the
+   nullable funcref / externref. *)
 From Coq Require Import List NArith Bool.
 From Orca Require Import Model.ValTypes Gen.GenDataTypeConv.
 Import ListNotations.
@@ -25,9 +26,7 @@ Definition d10_cont (t : valtype) : bool :=
 Definition d10_shared (t : valtype) : bool :=
   match t with VRef _ (HAbs true _) => true | _ => false end.
 Definition known_D10 (t : valtype) : bool := d10_exn t || d10_cont t || d10_shared t.
-(* 104 (wasmparser direction only): non-nullable (ref func) / (ref extern) come back nullable *)
-Definition d10_wp_nonnull_func_extern (t : valtype) : bool :=
-  match t with VRef false (HAbs _ AFunc) | VRef false (HAbs _ AExtern) => true | _ => false end.
+(* (class 104 = D10d, wasmparser direction only: the non-nullable (ref func) / (ref extern) came back nullable -- repaired) *)
 
 Definition in_profile (t : valtype) : Prop := reader_valtype t = true.
 
@@ -70,20 +69,26 @@ Theorem valtype_refuted : exists t, in_profile t /\ roundtrip_enc t <> Some t.
 Proof. exists (VRef true (HAbs false AExn)). split; [reflexivity | vm_compute; discriminate]. Qed.
 
 (* the wasmparser direction *)
-Theorem valtype_wp_faithful : forall t, in_profile t -> known_D10 t = false -> d10_wp_nonnull_func_extern t = false ->
-  roundtrip_wp t = Some t.
+Theorem valtype_wp_faithful : forall t, in_profile t -> known_D10 t = false -> roundtrip_wp t = Some t.
 Proof.
-  intros t P K W. unfold in_profile in P.
+  intros t P K. unfold in_profile in P.
   destruct t as [| | | | |n h]; try reflexivity.
   destruct h as [s a|i|i|i]; try discriminate P.
-  - destruct n, s, a; try discriminate K; try discriminate W; reflexivity.
+  - destruct n, s, a; try discriminate K; reflexivity.
   - destruct n; reflexivity.
 Qed.
-Example valtype_wp_refuted_ref_func : roundtrip_wp (VRef false (HAbs false AFunc)) = Some (VRef true (HAbs false AFunc)).
+(* the former witnesses of class 104: (ref func) / (ref extern) stay non-nullable *)
+Example valtype_wp_keeps_ref_func : roundtrip_wp (VRef false (HAbs false AFunc)) = Some (VRef false (HAbs false AFunc)).
 Proof. reflexivity. Qed.
-Example valtype_wp_refuted_ref_extern : roundtrip_wp (VRef false (HAbs false AExtern)) = Some (VRef true (HAbs false AExtern)).
+Example valtype_wp_keeps_ref_extern : roundtrip_wp (VRef false (HAbs false AExtern)) = Some (VRef false (HAbs false AExtern)).
 Proof. reflexivity. Qed.
-(* the encoder direction keeps them: the unmodified round trip (C02) is not affected by class 104 *)
+(* the two directions agree now on every DataType but the two index-carrying ones (RecGroup stays a rec-group index in
+   the wasmparser direction, CoreTypeId is refused there): whatever else the API is given, add_global / BlockType
+   (wasmparser direction) and the type / code sections (wasm_encoder direction) read the same value type out of it *)
+Theorem to_val_wp_agrees_with_enc : forall d,
+  match d with DT_RecGroup _ | DT_CoreTypeId _ => True | _ => to_val_wp d = to_val_enc d end.
+Proof. destruct d; try exact I; reflexivity. Qed.
+(* the encoder direction always kept them *)
 Example valtype_enc_keeps_ref_func : roundtrip_enc (VRef false (HAbs false AFunc)) = Some (VRef false (HAbs false AFunc)).
 Proof. reflexivity. Qed.
 
